@@ -63,7 +63,7 @@ T = {
  "C19": ("exploration", "interpretation of vRecur.to_ical/from_ical/parse_type and the part codecs on rules of every RFC 5545/7529 part, alone and combined, three construction modes, read back by an independent RECUR reader; table agreement with the RFC part table; regex inclusion",
          "The encoded text is RECUR syntax with FREQ (after an optional RSCALE) first and exactly the supplied parts and values; decoding yields every part in text order with the same typed values; re-encoding is stable; decoded/encoded results do not depend on history; canonical_order and the type table agree with the RFC.",
          "About 150 rules; equality of occurrence sequences under an expander is not decided.", "17.3b/C19"),
- "C20": ("exploration", "interpretation of walk/_walk, the kind accessors and Component.__eq__ on abstract component trees against pre-order and the equivalence laws; guard analysis of every __eq__ (following helper methods); registry data; deep copies (own __deepcopy__ interpreted) equal, separate, serialising identically; components of a kind by name only",
+ "C20": ("exploration", "interpretation of walk/_walk, the kind accessors and Component.__eq__ on abstract component trees against pre-order and the equivalence laws, also on trees produced by the interpreted parser (lower-case texts, unknown components); guard analysis of every __eq__ (following helper methods); registry data; deep copies (own __deepcopy__ interpreted) equal, separate, serialising identically; components of a kind by name only",
          "walk returns every matching component exactly once in pre-order for names in any case and any predicate; accessors return the components of their kind; equality is reflexive, symmetric, insensitive to subcomponent and insertion order, False for 9 kinds of foreign operand, != its negation, and distinguishes value, list order, extra property, dropped/extra subcomponent and the multiset of subcomponents; no __eq__ can raise on a foreign operand.",
          "Trees <= 5 nodes plus repeated-kind and VTIMEZONE trees; pickle fidelity not decided; K8 (component kind not compared) is a known finding.", "16/C20"),
 }
